@@ -13,6 +13,33 @@ TB_VALUE = TB_COMMON + [
 ]
 
 PROPS = {
+    "C11": {
+        "n_quick": 4500, "n_thorough": 40000,
+        "check_fn": "k11_check",
+        "rule": "every exported standard-library function (80, table regenerated from the source) and conversion functions for 10 representative target types, round-robin; arguments from a "
+                "per-function generator of mostly admissible wholly known argument lists (75%) or generated from the parameter constraints alone with dynamic constraints instantiated "
+                "arbitrarily (25%); 6% with wrong arity; then the same list with nulls, unknowns, dynamic values, top-level and nested marks and nested unknowns injected at random positions; "
+                "ReturnType, ReturnTypeForValues and Call on each; non-trivial = every call",
+        "trusted_base": TB_VALUE + ["Gen/SpecTable.v is produced by the harness's go/ast translator from cty/function/stdlib/*.go on every run (parameter constraints, flags, variadic parameter, "
+                                    "RefineResult as builder calls); the translator is trusted to read the literals correctly (an unsupported expression aborts the run)",
+                                    "the Type and Impl callbacks of the functions are not modelled here: the model is the call protocol with the callbacks' observed answers plugged in"],
+        "assumptions": ["capsule-typed arguments (bytes functions) have no model case"],
+        "partial": ["theorems hold for every specification in the generated table and every callback behaviour (no escaping panic, implementation contract); that no implementation panics "
+                    "internally and that predicted types are sound is decided per generated call by the implementation-side oracle and, for the protocol's own answers (argument errors, dynamic "
+                    "and unknown short-circuits with marks and result refinements), by correspondence with the model"],
+    },
+    "C12": {
+        "n_quick": 4500, "n_thorough": 40000,
+        "check_fn": "k11_check",
+        "rule": "every standard-library function round-robin x generated wholly known argument lists on which the call succeeds x three weakenings each (arguments and nested members replaced "
+                "by typed unknowns, unrefined or with refinements checked to admit the replaced part); the weakened call must succeed and its result admit the original result; wholly known "
+                "arguments must give a wholly known result; non-trivial = every weakened call",
+        "trusted_base": TB_VALUE + ["Gen/SpecTable.v as for C11", "the admits relation of the oracle (harness/internal/gv) mirrors Model/Admits.v"],
+        "assumptions": ["replacements keep the argument's type (typed unknowns); DynamicVal as an argument is C11's case"],
+        "partial": ["theorems: the protocol's short-circuit answer is the unknown of the predicted type with marks and result refinement, and such an unknown admits every conforming unmarked value; "
+                    "the hand-written unknown handling inside individual functions is decided by the oracle only",
+                    "KF-C12-1: setproduct's length lower bound of 1 for possibly-empty arguments (pinned by the existing test suite)"],
+    },
     "C15": {
         "n_quick": 420, "n_thorough": 9000,
         "check_fn": "k15_check",
